@@ -371,6 +371,40 @@ def check_stack_default(ctx, rp, q, rule='R-STACKDEFAULT'):
     return 1
 
 
+def check_stack_imports(ctx, rule='R-STDIMPORT'):
+    """every stack method of the package (the base one and each override a reader class adds) can be entered: a name imported from a
+    standard-library module inside the method exists in that module on the installed interpreter (collections.Iterable moved to
+    collections.abc; importing it from the old place raises for every call, so files of that reader cannot be stacked at all)."""
+    import importlib
+    import sys
+    ctx.rule(rule, 'stack methods (base and overrides): names imported from the standard library inside the method exist on the installed interpreter')
+    std = set(getattr(sys, 'stdlib_module_names', ()))
+    n = 0
+    for m in ctx.src.all_modules():
+        for q, fn in sorted(m.functions.items()):
+            if q.split('.')[-1] not in ('stack', 'stack_files', 'open_mfdataset', 'pncmfopen') or '<locals>' in q:
+                continue
+            n += 1
+            bad = None
+            for st in iter_stmts(fn.body):
+                if isinstance(st, ast.ImportFrom) and st.level == 0 and st.module and st.module.split('.')[0] in std:
+                    try:
+                        lib = importlib.import_module(st.module)
+                    except Exception:
+                        bad = (st, 'module %s does not exist' % st.module)
+                        continue
+                    for a in st.names:
+                        if a.name != '*' and not hasattr(lib, a.name):
+                            bad = (st, '%s has no %s on this interpreter' % (st.module, a.name))
+            where = 'src/PseudoNetCDF/%s %s' % (m.relpath, q)
+            if bad:
+                ctx.violation(Finding(rule, m.relpath, q, bad[0], '%s: the import is executed on every call, so %s raises ImportError for every input and files of this class cannot be stacked'
+                                      % (bad[1], q)))
+            else:
+                ctx.ok(rule, q, where, 'imports inside the method resolve')
+    ctx.floor('stack methods examined for imports', n, 4)
+
+
 def check_delegate(ctx, rp, q):
     fn = ctx.src.mod(rp).func(q)
     where = 'src/PseudoNetCDF/%s %s' % (rp, q)
@@ -477,6 +511,7 @@ def run(ctx):
     # a prohibition (no for/else whose loop cannot break): it needs no instance - a helper without any for/else satisfies it
     ctx.count('for/else loops in the multi-file helpers', n)
     ctx.floor('default stack dimension searches', nsd, 1)
+    check_stack_imports(ctx)
     # ---- R-PASSMASK: variables the string forms pass through keep their mask
     from .. import lints as _lp
     ctx.rule('R-PASSMASK', 'variables that an operation passes through unchanged keep their mask: the converter copy does not fill an in-memory masked target')
